@@ -99,7 +99,13 @@ func NewUpstreamReverseProxy(config *UpstreamConfig, signer *RequestSigner) (htt
 			// in a higher-level middleware to ensure they are added to all requests.
 			for key := range securityHeaders {
 				resp.Header.Del(key)
+				resp.Trailer.Del(key)
 			}
+
+			// The Strict-Transport-Security header is set by the requireHTTPS middleware,
+			// not by securityHeaders; an upstream must not be able to replace or weaken it either.
+			resp.Header.Del("Strict-Transport-Security")
+			resp.Trailer.Del("Strict-Transport-Security")
 
 			return nil
 		},
